@@ -1,18 +1,17 @@
-\* U1 (as intended): the invitation gate. Nobody attached at first; attach / leave / re-attach, write permission dropped and
-\* restored, invitations from every session in the p2p and in the group topic, hang-ups and accepts so that calls end and restart.
+\* U1 quick tier: as Call_U1_gate.cfg with at most 2 invitations accepted and no disconnects.
 CONSTANTS
   Configured = TRUE
   DEV_DetachedPartyOutlivesSession = FALSE
   FIX_DetachedAcceptRefused = FALSE
   Kinds = {"Sub", "Leave", "SetSelf", "Invite", "Note", "Timeout", "Disconnect"}
-  MaxSeq = 3
+  MaxSeq = 2
   MaxDepth = 0
   InitAtt = {}
   InitAttG = {"s1", "s5"}
   InitOnMe = {}
   MeSessions = {"s4"}
   LeaveSessions = {"s1", "s2"}
-  DiscSessions = {"s4"}
+  DiscSessions = {}
   PubSessions = {}
   DumpPrefix = ""
   RandomWalk = FALSE
